@@ -24,7 +24,7 @@ func init() {
 			"time stamps of two testdrv sessions may differ by one constant (the driver mixes the real and its virtual clock when a session starts); the monitor requires the difference to be the same for every retained message and below 60 s",
 			"domain is the well-formed C04 domain, as the quantifier says",
 		},
-		Require:         []string{"sessions_through_clock_zero", "sessions_l1", "sessions_l2", "filtered:sense", "filtered:clock", "filtered:sysex", "retained_messages_compared"},
+		Require:         []string{"sessions_through_clock_zero", "sessions_with_fractional_intervals", "sessions_l1", "sessions_l2", "filtered:sense", "filtered:clock", "filtered:sysex", "retained_messages_compared"},
 		FakeTimeWorkers: 1,
 		Run:             runC14,
 	})
@@ -59,7 +59,7 @@ func c14Session(level int, cfg liveCfg, chunks [][]byte, deltas []int32) ([]obs,
 	}
 	for i, ch := range chunks {
 		cur = i
-		l.drv.Sleep(time.Duration(deltas[i]) * time.Millisecond)
+		l.drv.Sleep(time.Duration(deltas[i])*time.Millisecond + fracBefore(i))
 		if err := l.out.Send(ch); err != nil {
 			return got, err
 		}
@@ -191,6 +191,51 @@ func runC14(c *mon.Ctx) {
 		w := gen.Serialize(nil, msgs, gen.SerOpts{})
 		c14Check(c, w.Bytes, [][]byte{w.Bytes}, []int32{7}, uint32(r.Pick(0, 0, 2048)))
 		c.DistinctBytes(w.Bytes)
+	})
+
+	// inter-arrival times that are not whole milliseconds (a MIDI clock at 120 bpm ticks every 20.833 ms, a byte
+	// takes 0.32 ms on the wire), lone real-time bytes between the other messages: the time stamps of the messages
+	// that remain must not depend on whether the filtered ones were delivered
+	c.Each("sub-millisecond", c.N(1500, 60_000), func(i int64, r *mon.Rand) {
+		buf := uint32(r.Pick(0, 16, 64))
+		lc := liveCfg{buf: buf}
+		msgs := gen.LiveSequence(r, r.Range(3, 25), lc.bufSize(), true)
+		var seq [][]byte
+		for _, m := range msgs {
+			for n := r.Pick(0, 1, 1, 2, 3); n > 0; n-- {
+				seq = append(seq, [][]byte{{0xF8}, {0xFE}, {0xF8}, {0xF0, 0x7D, byte(n), 0xF7}}[r.Intn(4)])
+			}
+			seq = append(seq, m)
+		}
+		w := gen.Serialize(r, seq, gen.SerOpts{RunningStatus: true})
+		// one message per call
+		var chunks [][]byte
+		var deltas []int32
+		var frac []time.Duration
+		last := 0
+		tick := time.Duration(r.Pick(20833, 10416, 1600, 500, 999, 333, 250)) * time.Microsecond
+		for k := range w.EndIdx {
+			if end := w.EndIdx[k] + 1; end > last {
+				chunks = append(chunks, w.Bytes[last:end])
+				d := tick
+				if r.P(1, 3) {
+					d = time.Duration(r.Intn(3000)) * time.Microsecond
+				}
+				deltas = append(deltas, int32(d/time.Millisecond))
+				frac = append(frac, d%time.Millisecond)
+				last = end
+			}
+		}
+		if last < len(w.Bytes) {
+			chunks = append(chunks, w.Bytes[last:])
+			deltas = append(deltas, 1)
+			frac = append(frac, 0)
+		}
+		liveFrac = frac
+		defer func() { liveFrac = nil }()
+		c14Check(c, w.Bytes, chunks, deltas, buf)
+		c.Count("sessions_with_fractional_intervals", 1)
+		c.DistinctBytes(w.Bytes, []byte(fmt.Sprint(deltas, frac)))
 	})
 
 	c.Each("random", c.N(10_000, 1_500_000), func(i int64, r *mon.Rand) {
